@@ -19,7 +19,9 @@ CONSTANTS MaxWriters, MaxK, Delays,
 \* notices; idleLong: the control - a peer that answers pings keeps an idle connection alive beyond the pong wait
 \* localCloseStalled (C13): the peer stays connected but reads nothing - the pump's transport write blocks for good; a local
 \* close (k = 1: with a reason, which must wait for that write) still returns and releases everything: the write deadline
-Events == {"none", "localClose", "localCloseReason", "localCloseLateRead", "localCloseStalled", "peerClose", "peerEof", "peerBad", "writeFail", "readFail", "peerSilent", "idleLong"}
+\* slowWrite (C06): the transport write of the first message takes a few seconds (a peer that reads slowly), nothing closes
+\* the connection: every message handed to it while it stays open reaches the peer
+Events == {"none", "slowWrite", "localClose", "localCloseReason", "localCloseLateRead", "localCloseStalled", "peerClose", "peerEof", "peerBad", "writeFail", "readFail", "peerSilent", "idleLong"}
 Places == {"start", "idle", "mid", "blockedFull"}
 Rows == { [writers |-> w, msgs |-> m, inbound |-> i, event |-> e, place |-> p, k |-> k, delay |-> d] :
             w \in 1..MaxWriters, m \in 1..2, i \in {0, 2}, e \in Events, p \in Places, k \in 0..MaxK, d \in Delays }
@@ -27,9 +29,10 @@ Rows == { [writers |-> w, msgs |-> m, inbound |-> i, event |-> e, place |-> p, k
 \* (1000, 1001, 1002, 1008, 1011, 3000, 4001, 4452, 4999, ...)
 \* localCloseReason, k = 1: the transport write of the close frame returns only after the peer has reacted to it
 Valid(r) == /\ (r.event \in {"writeFail", "readFail", "peerClose", "peerBad"}) => (r.k > 0)
-            /\ (r.event \in {"none", "localClose", "peerEof", "peerSilent", "idleLong"}) => (r.k = 0)
+            /\ (r.event \in {"none", "slowWrite", "localClose", "peerEof", "peerSilent", "idleLong"}) => (r.k = 0)
             /\ r.event = "localCloseReason" => r.k <= 1
             /\ r.event \in {"peerSilent", "idleLong"} => (Long /\ r.k = 0 /\ r.inbound = 0 /\ r.place = "idle" /\ r.writers = 1 /\ r.msgs = 1)
+            /\ r.event = "slowWrite" => (r.k = 0 /\ r.inbound = 0 /\ r.place = "idle" /\ r.msgs = 2)
             /\ r.event = "localCloseStalled" => (r.k <= 1 /\ r.inbound = 0 /\ r.place = "idle" /\ r.writers = 1 /\ r.msgs = 1)
             /\ r.event = "localCloseLateRead" => (r.k <= 1 /\ r.inbound = 0 /\ r.place = "idle")
             /\ r.event = "peerBad" => (r.k <= 5 /\ r.inbound = 0 /\ r.msgs = 2 /\ r.place \in {"idle", "mid"})
